@@ -59,7 +59,7 @@ def main():
 
     # 2./3. correspondence + property predicates on the implementation
     res = C.Result(prop)
-    ctx = {"tier": args.tier, "seed": seed, "thorough": args.tier == "thorough"}
+    ctx = {"tier": args.tier, "seed": seed, "thorough": args.tier == "thorough", "prop": prop}
     twin_groups = tuple(getattr(mod, "JIT_TWIN", ()))
     twin = None
     if twin_groups:
